@@ -2131,7 +2131,8 @@ def _make_promotion_decls(
 
     declarations: List[VarDecl] = []
     for name in promoted_names:
-        cpp_type = promotion_info.get(name, _cpp_type(var_types.get(name, "int")))
+        # (an entry is valid for the promotion that recorded it only: the table is shared with nested scopes)
+        cpp_type = promotion_info.pop(name, _cpp_type(var_types.get(name, "int")))
         decl = VarDecl(
             name=name,
             c_type=cpp_type,
